@@ -322,7 +322,15 @@ def build_move(m: dict, labels, cache: dict):
     elif t == "P":
         out = BareMove(step=m.get("step", 0.2), result=m.get("result", True))
     elif t == "H":
-        out = HamiltonianDisplacementMove(operation=Verlet(dt=m.get("dt", 1.0), max_steps=m.get("steps", 5)))
+        hkw = {}
+        if m.get("forced"):
+            # the shipped refresh with its documented `forced` option (exact target kinetic temperature)
+            import functools
+
+            from quansino.utils.dynamics import maxwell_boltzmann_distribution
+
+            hkw["distribution"] = functools.partial(maxwell_boltzmann_distribution, forced=True)
+        out = HamiltonianDisplacementMove(operation=Verlet(dt=m.get("dt", 1.0), max_steps=m.get("steps", 5)), **hkw)
     else:
         raise ValueError(t)
     if t in ("D", "E", "C", "H"):
@@ -393,6 +401,9 @@ def build(spec: dict, **driver_kwargs):
         mc = AdaptiveForceBias(atoms, min_delta=spec.get("min_delta", 0.02), max_delta=spec.get("delta", 0.2), temperature=T, scheme=spec.get("scheme", "forces"), update_function=spec.get("update", "tanh"), **kw)
     else:
         raise ValueError(d)
+    if spec.get("accessible_volume_fraction") is not None:
+        # a porous host: only part of the cell is accessible to the exchanged species (documented setting)
+        mc.accessible_volume = float(spec["accessible_volume_fraction"]) * float(atoms.cell.volume)
     cache: dict = {}
     info = {"labels": labels, "moves": {}, "criteria": {}}
     for e in spec.get("table", []):
@@ -423,7 +434,7 @@ def state_digest(mc) -> str:
     h.update(repr([(str(n), None if v is None else bool(v)) for n, v in getattr(mc, "move_history", [])]).encode())
     ctx = getattr(mc, "context", None)
     if ctx is not None:
-        for f in ("last_potential_energy", "number_of_exchange_particles", "last_kinetic_energy"):
+        for f in ("last_potential_energy", "number_of_exchange_particles", "last_kinetic_energy", "accessible_volume", "chemical_potential", "temperature", "pressure", "external_stress"):
             if hasattr(ctx, f):
                 h.update(repr(np.asarray(getattr(ctx, f)).tolist()).encode())
     for name, st in getattr(mc, "moves", {}).items():
